@@ -468,6 +468,9 @@ pub fn finish(ctx: &Ctx, mut res: RunResult, report: Report) -> i32 {
     for (k, v) in report.extra.iter() {
         coverage.insert(k.clone(), v.clone());
     }
+    if let Ok(san) = std::env::var("VERIF_SANITIZER_SUMMARY") {
+        coverage.insert("sanitizer_stages".into(), json!(san));
+    }
     if let Ok(sec) = std::env::var("VERIF_SECONDARY_SUMMARY") {
         coverage.insert("secondary_run".into(), json!(sec));
     }
